@@ -13,14 +13,14 @@ from vf.models.sse import EventSourceParser
 PROPERTY = "C19"
 LEVEL = "exploration"
 SHARDS = {"quick": 4, "thorough": 16}
-REQUIRED = ["eventsource-parse", "order-and-count", "ping-ignored", "asgi-stream", "wsgi-stream", "event-object-reused", "re-iterable-producer", "slow-consumer"]
+REQUIRED = ["eventsource-parse", "order-and-count", "ping-ignored", "asgi-stream", "wsgi-stream", "event-object-reused", "re-iterable-producer", "slow-consumer", "producer-fails-after-its-last-event"]
 RULE = ("Random event dictionaries: every subset/order of data/event/id/retry; data built from an alphabet of CR, LF, CRLF, U+000B, U+000C, "
         "U+001C-1E, U+0085, U+2028, U+2029, BOM, spaces, colons, empty string, JSON, non-ASCII; single-line names/ids; retry >= 0; charsets "
         "utf-8 / latin-1 / gbk / cp1252 (data restricted to what the charset encodes). Each event alone through build_bytes_from_sse, and sequences "
         "of 1-6 events through the real ASGI (virtual time, pings interleaved) and WSGI (thread relay, 20 ms pings) SendEventResponse. "
         "Non-trivial = data contains a line/paragraph separator, is empty, or starts with space/colon, or the event lacks data; distinct = "
         "(event dict, charset).")
-RULE += ' Also: two streams written at the same time by two server threads (thread switch placed between library lines); text that is not in a Unicode normal form (decomposed, compatibility, singleton characters) in data, names and ids; every event that carries a retry writes it (the retry fields of the stream, in order); the same dict object yielded repeatedly, re-iterable producers served twice by one response object, data lines of 70 000 characters, a WSGI client that takes several ping intervals per chunk.'
+RULE += ' Also: two streams written at the same time by two server threads (thread switch placed between library lines); text that is not in a Unicode normal form (decomposed, compatibility, singleton characters) in data, names and ids; every event that carries a retry writes it (the retry fields of the stream, in order); the same dict object yielded repeatedly, re-iterable producers served twice by one response object, data lines of 70 000 characters, a WSGI client that takes several ping intervals per chunk. WSGI producers that raise right after their last event (every event yielded before must arrive); a client that hangs up after 4x more blocks than events were yielded (an endless stream is reported, not waited for).'
 ASSUMPTIONS = [
     "data that ends in a line break may arrive with or without that last break (the statement does not say whether 'a\\n' has one or two lines); never with more",
     "events without a data key dispatch nothing by the standard; for them only the id/retry side effects and 'no event fired' are checked",
@@ -199,7 +199,11 @@ def asgi_stream(ctx, events, delays, charset, ping=1.0, share=False):
 _POOL_N = [0]
 
 
-def wsgi_stream(ctx, events, delays, charset, ping=0.02, share=False, consumer_delay=0.0):
+class ProducerFailed(Exception):
+    pass
+
+
+def wsgi_stream(ctx, events, delays, charset, ping=0.02, share=False, consumer_delay=0.0, then_raise=False):
     """consumer_delay: the server needs that long to write each chunk out (a slow client) - several ping intervals"""
     import time
 
@@ -216,6 +220,8 @@ def wsgi_stream(ctx, events, delays, charset, ping=0.02, share=False, consumer_d
                 if d:
                     time.sleep(d)
                 yield ev if share else dict(ev)
+            if then_raise:
+                raise ProducerFailed("the producer fails after its last event")
         resp = wsgi.SendEventResponse(gen(), ping_interval=ping, charset=charset)
         if consumer_delay:
             env = drivers.to_environ(drivers.Req())
@@ -231,9 +237,11 @@ def wsgi_stream(ctx, events, delays, charset, ping=0.02, share=False, consumer_d
     finally:
         pool.shutdown(wait=True)
     case = {"events": expected_events if share else events, "delays": delays, "charset": charset, "iface": "wsgi", "same_dict_objects_yielded": share,
-            "consumer_delay": consumer_delay, "ping": ping}
+            "consumer_delay": consumer_delay, "ping": ping, "producer_raises_after_its_last_event": then_raise}
     ctx.mon("wsgi-stream")
-    if r.exc is not None:
+    if then_raise:
+        ctx.mon("producer-fails-after-its-last-event")
+    if r.exc is not None and not (then_raise and isinstance(r.exc, ProducerFailed)):
         ctx.violation(f"exception|wsgi-stream|{type(r.exc).__name__}", case, repr(r.exc))
         return
     cs = charset_of(r.header("content-type"))
@@ -336,8 +344,19 @@ def run(ctx):
                         pool.shutdown(wait=True)
                     body, exc = r.body, r.exc
                 else:
-                    r = drivers.run_asgi(resp, drivers.to_scope(drivers.Req()))
+                    over = []
+
+                    def hang_up(message, n, limit=4 * len(events) + 8):
+                        # a client that got far more blocks than events were yielded hangs up (the stream would never end)
+                        if n > limit:
+                            over.append(n)
+                            raise OSError("verif: client hangs up")
+                    r = drivers.run_asgi(resp, drivers.to_scope(drivers.Req()), on_send=hang_up)
                     body, exc = r.body, r.exc
+                    if over:
+                        ctx.mon("re-iterable-producer")
+                        ctx.violation(f"more-blocks-written-than-events-yielded|re-iterable-producer|{iface}", case, f"{over[0]} messages sent for {len(events)} events; first bytes {r.body[:120]!r}")
+                        break
                 ctx.mon("re-iterable-producer")
                 if exc is not None:
                     ctx.violation(f"exception|re-iterable-producer|{type(exc).__name__}|{iface}", case, repr(exc))
@@ -361,6 +380,10 @@ def run(ctx):
         wsgi_stream(ctx, events, [0] * n, cs, ping=0.01, consumer_delay=0.035)
         ctx.mon("slow-consumer")
         ctx.case(("wsgi-slow", repr(events), cs))
+        # ... and the producer fails right after its last event: every event it yielded before still reaches the client, in order
+        events = [gen_event(rng, cs) for _ in range(rng.randrange(1, 5))]
+        wsgi_stream(ctx, events, [0] * len(events), cs, ping=rng.choice([0.01, 5]), consumer_delay=rng.choice([0.0, 0.02]), then_raise=True)
+        ctx.case(("wsgi-producer-fails", repr(events), cs))
     # ... and a producer that is far ahead with a lot of text (more than 64 KiB waiting at any time)
     for i in range(ctx.scale(2, 12)):
         events = [{"data": chr(97 + j % 26) * 9000, "id": str(j)} for j in range(24)]
